@@ -60,6 +60,15 @@ def check_instance(ctx, case):
     n = len(pat) * octs
     hept = R.is_heptatonic(pat)
     labels = ["scale:" + cls, "octaves:%d" % octs]
+    # the same kind of scale on the same tonic over other numbers of octaves is asked first (degrees, lists): this instance's
+    # answers must not depend on it
+    for other in (max(1, octs - 1), 1, octs + 1, 3):
+        if other != octs:
+            try:
+                o = getattr(scales, cls)(*([arg, tuple(case[3]), other] if cls == "Diatonic" else [arg, other]))
+                o.degree(2), o.degree(2, "d"), o.degree(len(pat) * other), o.ascending(), o.descending()
+            except Exception:  # noqa - judged in that instance's own case
+                pass
     s = _make(ctx, case)
     if failed(s):
         return ctx.note_case(False, labels)
@@ -177,6 +186,13 @@ def check_recognition(ctx, notes_in):
                   lambda: "determine(%r) lacks %r (returned %r)" % (notes_in, missing, list(r)))
         ctx.check(not extra, "recognition/extra",
                   lambda: "determine(%r) wrongly lists %r (expected %r)" % (notes_in, extra, exp))
+        # the notes may come in any kind of collection - a tuple, a set, or something that can be walked through only once
+        for kind, arg in (("tuple", tuple(notes_in)), ("set", set(notes_in)), ("iterator", iter(list(notes_in))),
+                          ("generator", (x for x in list(notes_in)))):
+            r2 = ctx.ok("recognition/" + kind, scales.determine, arg)
+            if not failed(r2):
+                ctx.check(Counter(list(r2)) == got, "recognition/depends-on-collection-type",
+                          lambda: "determine(%s of %r) -> %r, as a list %r" % (kind, notes_in, list(r2), list(r)))
     nt = len(set(notes_in)) >= 3 and bool(exp) and sorted(exp) != sorted(R.recognise(notes_in[:2]))
     ctx.note_case(nt, ["recognition:size%d" % min(len(set(notes_in)), 8),
                        "recognition:" + ("none" if not exp else "some" if len(exp) < 105 else "all")])
